@@ -60,10 +60,12 @@ impl Distribution for Gamma {
     /// Gamma(alpha + 1) variate is sampled and then scaled by `U^(1 / alpha)`.
     fn sample(&self) -> f64 {
         let (alpha, boost) = if self.alpha < 1. {
-            (
-                self.alpha + 1.,
-                self.uniform_gen.sample().powf(1. / self.alpha),
-            )
+            // the generator is uniform on [0, 1): a draw of exactly 0 would make the variate exactly 0
+            let mut u = self.uniform_gen.sample();
+            while u == 0. {
+                u = self.uniform_gen.sample();
+            }
+            (self.alpha + 1., u.powf(1. / self.alpha))
         } else {
             (self.alpha, 1.)
         };
